@@ -777,7 +777,8 @@ def aipw_calculator(y, a, py_a, py_n, pa1, pa0, difference=True, weights=None, s
                     var_rd.append(np.var((y1s - y0s) - estimate, ddof=1))
                 var = np.mean(var_rd) / y.shape[0]
         else:
-            estimate = DescrStatsW(y1, weights=weights).mean - DescrStatsW(y0, weights=weights).mean
+            d, w = y1 - y0, np.asarray(weights)
+            estimate = np.average(d[~np.isnan(d)], weights=w[~np.isnan(d)])
             var = np.nan
 
     # Calculating ACE as a ratio
@@ -791,7 +792,9 @@ def aipw_calculator(y, a, py_a, py_n, pa1, pa0, difference=True, weights=None, s
                   ((1-a)*(y-py_o)) / (np.mean(py_n)*pa0) + (py_n - np.mean(py_n)))
             var = np.nanvar(ic, ddof=1) / y.shape[0]
         else:
-            estimate = DescrStatsW(y1, weights=weights).mean / DescrStatsW(y0, weights=weights).mean
+            w = np.asarray(weights)
+            estimate = (np.average(y1[~np.isnan(y1)], weights=w[~np.isnan(y1)]) /
+                        np.average(y0[~np.isnan(y0)], weights=w[~np.isnan(y0)]))
             var = np.nan
 
     return estimate, var
